@@ -169,6 +169,40 @@ def modes_concrete(run):
             run.failure("modes_agree_concrete", f"{nm}: the eight ways of asking disagree: " + ", ".join(f"{k}: {(len(v) if isinstance(v, list) else v)}" for k, v in res.items()), {"kind": "ch_none", "what": nm})
 
 
+def modes_same_files(run):
+    """the eight ways of asking about ONE rule file and ONE listing file (same paths), in one process, in several orders: the
+    answer to each way of asking is what it is when asked first (nothing remembered from an earlier way of asking)"""
+    import itertools
+    import os
+
+    import yaml
+    from vlib import jasmapi
+    from jasm.global_definitions import InputFileType, MatchConfig, MatchingReturnMode, MatchingSearchMode
+    from jasm.match import MasterOfPuppets
+
+    L = "".join(f"    {a}:\t{b:<21}\t{t}\n" for a, b, t in [("401000", "48 89 c3", "mov    %rax,%rbx"), ("401003", "e8 00 00 00 00", "call   401100 <f>"), ("401008", "90", "nop"), ("401009", "48 89 d8", "mov    %rbx,%rax"), ("40100c", "e8 00 00 00 00", "call   401200 <g>")])
+    full = ["401000::mov,%rax,%rbx,|401003::call,401100,|", "401009::mov,%rbx,%rax,|40100c::call,401200,|"]
+    def expected(ret, allm, addr):
+        l = full if allm else full[:1]
+        l = [x.split("::", 1)[0] for x in l] if addr else l
+        return True if ret == "bool" else l
+    ways = list(itertools.product(("bool", "list"), (False, True), (False, True)))
+    with jasmapi.scratch() as d:
+        rp, ap = os.path.join(d, "r.yaml"), os.path.join(d, "in.s")
+        open(rp, "w").write(yaml.safe_dump({"pattern": ["mov", "call"]}, sort_keys=False))
+        open(ap, "w").write(L)
+        for order in (ways, ways[::-1], ways[4:] + ways[:4], [ways[7], ways[6], ways[5], ways[4], ways[6], ways[7]]):
+            for ret, allm, addr in order:
+                cfg = MatchConfig(pattern_pathstr=rp, input_file=ap, input_file_type=InputFileType.assembly, return_only_address=addr,
+                                  return_mode=MatchingReturnMode.bool if ret == "bool" else MatchingReturnMode.matched_addrs_list,
+                                  matching_mode=MatchingSearchMode.all_finds if allm else MatchingSearchMode.first_find)
+                got = MasterOfPuppets(cfg).perform_matching()
+                run.count("traces_validated_against_impl")
+                if got != expected(ret, allm, addr):
+                    run.failure("modes_agree_same_files", f"one rule file and one listing file asked in several ways in one process: (return={ret}, all={allm}, address_only={addr}) answered {got!r}, expected {expected(ret, allm, addr)!r}", {"kind": "ch_none", "what": "same files, several ways of asking"})
+                    return
+
+
 def main(prop="C12"):
     run = Run(prop, "model_checking", "CH")
     hs = harnesses(tier())
@@ -179,6 +213,7 @@ def main(prop="C12"):
 
     c11.long_match_probe(run, key="modes_agree_long")
     modes_concrete(run)
+    modes_same_files(run)
     cov = {
         "states": len(hs),
         "transitions": run.counts.get("harness_runs", 0),
